@@ -38,6 +38,10 @@ func errs(err error) string {
 func OpenFile(name string, flag int, perm fs.FileMode) (*File, error) {
 	mut := flag&os.O_TRUNC != 0 || (flag&os.O_CREATE != 0 && !exists(name))
 	sched.Point("open", name, mut)
+	if err := sched.Fault("open", name); err != nil {
+		sched.Observe(errs(err))
+		return nil, err
+	}
 	f, err := os.OpenFile(name, flag, perm)
 	sched.Observe(errs(err))
 	if err != nil {
@@ -56,11 +60,19 @@ func (f *File) Name() string { return f.f.Name() }
 
 func (f *File) Close() error {
 	sched.Point("close", f.f.Name(), false)
+	if err := sched.Fault("close", f.f.Name()); err != nil {
+		sched.Observe(errs(err))
+		return err
+	}
 	return f.f.Close()
 }
 
 func (f *File) Write(b []byte) (int, error) {
 	sched.Point("write", f.f.Name(), true)
+	if err := sched.Fault("write", f.f.Name()); err != nil {
+		sched.Observe(errs(err))
+		return 0, err
+	}
 	n, err := f.f.Write(b)
 	sched.Observe(fmt.Sprint(n, errs(err)))
 	return n, err
@@ -68,6 +80,10 @@ func (f *File) Write(b []byte) (int, error) {
 
 func (f *File) WriteString(s string) (int, error) {
 	sched.Point("write", f.f.Name(), true)
+	if err := sched.Fault("write", f.f.Name()); err != nil {
+		sched.Observe(errs(err))
+		return 0, err
+	}
 	n, err := f.f.WriteString(s)
 	sched.Observe(fmt.Sprint(n, errs(err)))
 	return n, err
@@ -75,6 +91,10 @@ func (f *File) WriteString(s string) (int, error) {
 
 func (f *File) WriteAt(b []byte, off int64) (int, error) {
 	sched.Point("writeat", f.f.Name(), true)
+	if err := sched.Fault("writeat", f.f.Name()); err != nil {
+		sched.Observe(errs(err))
+		return 0, err
+	}
 	n, err := f.f.WriteAt(b, off)
 	sched.Observe(fmt.Sprint(n, errs(err)))
 	return n, err
@@ -82,6 +102,10 @@ func (f *File) WriteAt(b []byte, off int64) (int, error) {
 
 func (f *File) Read(b []byte) (int, error) {
 	sched.Point("read", f.f.Name(), false)
+	if err := sched.Fault("read", f.f.Name()); err != nil {
+		sched.Observe(errs(err))
+		return 0, err
+	}
 	n, err := f.f.Read(b)
 	sched.Observe(fmt.Sprint(n, errs(err)) + string(b[:max(n, 0)]))
 	return n, err
@@ -89,6 +113,10 @@ func (f *File) Read(b []byte) (int, error) {
 
 func (f *File) ReadAt(b []byte, off int64) (int, error) {
 	sched.Point("readat", f.f.Name(), false)
+	if err := sched.Fault("readat", f.f.Name()); err != nil {
+		sched.Observe(errs(err))
+		return 0, err
+	}
 	n, err := f.f.ReadAt(b, off)
 	sched.Observe(fmt.Sprint(n, errs(err)) + string(b[:max(n, 0)]))
 	return n, err
@@ -96,6 +124,10 @@ func (f *File) ReadAt(b []byte, off int64) (int, error) {
 
 func (f *File) Truncate(n int64) error {
 	sched.Point("truncate", f.f.Name(), true)
+	if err := sched.Fault("truncate", f.f.Name()); err != nil {
+		sched.Observe(errs(err))
+		return err
+	}
 	err := f.f.Truncate(n)
 	sched.Observe(errs(err))
 	return err
@@ -103,6 +135,10 @@ func (f *File) Truncate(n int64) error {
 
 func (f *File) Seek(o int64, w int) (int64, error) {
 	sched.Point("seek", f.f.Name(), false)
+	if err := sched.Fault("seek", f.f.Name()); err != nil {
+		sched.Observe(errs(err))
+		return 0, err
+	}
 	n, err := f.f.Seek(o, w)
 	sched.Observe(fmt.Sprint(n, errs(err)))
 	return n, err
@@ -110,6 +146,10 @@ func (f *File) Seek(o int64, w int) (int64, error) {
 
 func (f *File) Stat() (fs.FileInfo, error) {
 	sched.Point("fstat", f.f.Name(), false)
+	if err := sched.Fault("fstat", f.f.Name()); err != nil {
+		sched.Observe(errs(err))
+		return nil, err
+	}
 	i, err := f.f.Stat()
 	if err == nil {
 		sched.Observe(fmt.Sprint(i.Size()))
@@ -121,16 +161,28 @@ func (f *File) Stat() (fs.FileInfo, error) {
 
 func (f *File) Sync() error {
 	sched.Point("sync", f.f.Name(), false)
+	if err := sched.Fault("sync", f.f.Name()); err != nil {
+		sched.Observe(errs(err))
+		return err
+	}
 	return f.f.Sync()
 }
 
 func (f *File) Chmod(m fs.FileMode) error {
 	sched.Point("fchmod", f.f.Name(), true)
+	if err := sched.Fault("fchmod", f.f.Name()); err != nil {
+		sched.Observe(errs(err))
+		return err
+	}
 	return f.f.Chmod(m)
 }
 
 func (f *File) ReadDir(n int) ([]fs.DirEntry, error) {
 	sched.Point("freaddir", f.f.Name(), false)
+	if err := sched.Fault("freaddir", f.f.Name()); err != nil {
+		sched.Observe(errs(err))
+		return nil, err
+	}
 	return f.f.ReadDir(n)
 }
 
@@ -138,6 +190,10 @@ func (f *File) Fd() uintptr { return f.f.Fd() }
 
 func ReadFile(n string) ([]byte, error) {
 	sched.Point("readfile", n, false)
+	if err := sched.Fault("readfile", n); err != nil {
+		sched.Observe(errs(err))
+		return nil, err
+	}
 	b, err := os.ReadFile(n)
 	sched.Observe(errs(err) + string(b))
 	return b, err
@@ -145,6 +201,10 @@ func ReadFile(n string) ([]byte, error) {
 
 func WriteFile(n string, b []byte, p fs.FileMode) error {
 	sched.Point("writefile", n, true)
+	if err := sched.Fault("writefile", n); err != nil {
+		sched.Observe(errs(err))
+		return err
+	}
 	err := os.WriteFile(n, b, p)
 	sched.Observe(errs(err))
 	return err
@@ -152,6 +212,10 @@ func WriteFile(n string, b []byte, p fs.FileMode) error {
 
 func MkdirAll(n string, p fs.FileMode) error {
 	sched.Point("mkdirall", n, !exists(n))
+	if err := sched.Fault("mkdirall", n); err != nil {
+		sched.Observe(errs(err))
+		return err
+	}
 	err := os.MkdirAll(n, p)
 	sched.Observe(errs(err))
 	return err
@@ -159,6 +223,10 @@ func MkdirAll(n string, p fs.FileMode) error {
 
 func Mkdir(n string, p fs.FileMode) error {
 	sched.Point("mkdir", n, true)
+	if err := sched.Fault("mkdir", n); err != nil {
+		sched.Observe(errs(err))
+		return err
+	}
 	err := os.Mkdir(n, p)
 	sched.Observe(errs(err))
 	return err
@@ -166,6 +234,10 @@ func Mkdir(n string, p fs.FileMode) error {
 
 func Remove(n string) error {
 	sched.Point("remove", n, true)
+	if err := sched.Fault("remove", n); err != nil {
+		sched.Observe(errs(err))
+		return err
+	}
 	err := os.Remove(n)
 	sched.Observe(errs(err))
 	return err
@@ -173,6 +245,10 @@ func Remove(n string) error {
 
 func RemoveAll(n string) error {
 	sched.Point("removeall", n, true)
+	if err := sched.Fault("removeall", n); err != nil {
+		sched.Observe(errs(err))
+		return err
+	}
 	err := os.RemoveAll(n)
 	sched.Observe(errs(err))
 	return err
@@ -180,6 +256,10 @@ func RemoveAll(n string) error {
 
 func Rename(a, b string) error {
 	sched.Point("rename", a+" -> "+b, true)
+	if err := sched.Fault("rename", a+" -> "+b); err != nil {
+		sched.Observe(errs(err))
+		return err
+	}
 	err := os.Rename(a, b)
 	sched.Observe(errs(err))
 	return err
@@ -187,6 +267,10 @@ func Rename(a, b string) error {
 
 func Truncate(n string, size int64) error {
 	sched.Point("truncatepath", n, true)
+	if err := sched.Fault("truncatepath", n); err != nil {
+		sched.Observe(errs(err))
+		return err
+	}
 	err := os.Truncate(n, size)
 	sched.Observe(errs(err))
 	return err
@@ -194,26 +278,46 @@ func Truncate(n string, size int64) error {
 
 func Chmod(n string, m fs.FileMode) error {
 	sched.Point("chmod", n, true)
+	if err := sched.Fault("chmod", n); err != nil {
+		sched.Observe(errs(err))
+		return err
+	}
 	return os.Chmod(n, m)
 }
 
 func Chtimes(n string, a, m time.Time) error {
 	sched.Point("chtimes", n, true)
+	if err := sched.Fault("chtimes", n); err != nil {
+		sched.Observe(errs(err))
+		return err
+	}
 	return os.Chtimes(n, a, m)
 }
 
 func Symlink(a, b string) error {
 	sched.Point("symlink", b, true)
+	if err := sched.Fault("symlink", b); err != nil {
+		sched.Observe(errs(err))
+		return err
+	}
 	return os.Symlink(a, b)
 }
 
 func Link(a, b string) error {
 	sched.Point("link", b, true)
+	if err := sched.Fault("link", b); err != nil {
+		sched.Observe(errs(err))
+		return err
+	}
 	return os.Link(a, b)
 }
 
 func ReadDir(n string) ([]fs.DirEntry, error) {
 	sched.Point("readdir", n, false)
+	if err := sched.Fault("readdir", n); err != nil {
+		sched.Observe(errs(err))
+		return nil, err
+	}
 	d, err := os.ReadDir(n)
 	s := errs(err)
 	for _, e := range d {
@@ -225,6 +329,10 @@ func ReadDir(n string) ([]fs.DirEntry, error) {
 
 func Stat(n string) (fs.FileInfo, error) {
 	sched.Point("stat", n, false)
+	if err := sched.Fault("stat", n); err != nil {
+		sched.Observe(errs(err))
+		return nil, err
+	}
 	i, err := os.Stat(n)
 	if err == nil {
 		sched.Observe(fmt.Sprint(i.Size(), i.IsDir()))
@@ -236,6 +344,10 @@ func Stat(n string) (fs.FileInfo, error) {
 
 func Lstat(n string) (fs.FileInfo, error) {
 	sched.Point("lstat", n, false)
+	if err := sched.Fault("lstat", n); err != nil {
+		sched.Observe(errs(err))
+		return nil, err
+	}
 	i, err := os.Lstat(n)
 	if err == nil {
 		sched.Observe(fmt.Sprint(i.Size(), i.IsDir()))
